@@ -45,6 +45,8 @@ def run(ctx):
     def bad(what, inp, obs):
         ctx.violations.append(dict(what=what, key=what, input=inp, observed=obs))
 
+    k6_main = [e for e in core.known_findings(ID) if e["status"] == "known" and e.get("key") == "K6-small-M-round-trip"]
+    k6_band_hits = []
     for k in range(n):
         cname = list(crv)[k % len(crv)]
         rf = crv[cname]
@@ -96,7 +98,9 @@ def run(ctx):
             close = dom.relclose(fit.M_, M, 1e-2) and dom.relclose(fit.tau_, tau, 1e-2)
         # (the recovery clause is about curves that determine M and tau: a piecewise-constant or coarse cubic / extrapolated user curve
         # does not - for those only containment in the bounds, above, and the supplied-tau optimum, below, are required)
-        if not close and "interp1d" not in cname:
+        if not close and "interp1d" not in cname and k6_main and (len(tt) * M * M / tau < 1e-3 or M >= 1e10):
+            k6_band_hits.append((M, tau, len(tt)))     # known finding K6: the optimiser's unscaled stopping rules (see below)
+        elif not close and "interp1d" not in cname:
             bad("fitting noise-free production generated from the same curve does not recover M and tau", dict(**inp, window_end_over_tau=end / tau, samples=len(tt), bounds=kind),
                 dict(M=float(fit.M_), tau=float(fit.tau_)))
         # ---------------- explicit arguments always win over fitted attributes, at the ends of the admissible range too
@@ -165,7 +169,9 @@ def run(ctx):
     for k in range(4 if ctx.quick else 40):
         rf = crv["analytic"]
         M, tau = dom.loguniform(rng, 1e-9, 1e-4), dom.loguniform(rng, 1.0, 1e4)
-        tt = np.linspace(tau / 40, float(rng.uniform(0.8, 2.5)) * tau, int(rng.integers(50, 100)))
+        if k % 4 == 3:
+            M, tau = dom.loguniform(rng, 1e11, 1e13), dom.loguniform(rng, 1.0, 30.0)     # the other end: a step of O(1) in tau is "small" next to M
+        tt = np.linspace(tau / 40, float(rng.uniform(0.8, 2.5)) * tau, int(rng.integers(50, 100)) if k % 4 != 3 else 5000)
         y = M * np.asarray(rf(tt / tau), float)
         fo = ForecasterOnePhase(rf)
         ev += 1
@@ -180,7 +186,7 @@ def run(ctx):
         inside6 = fo.bounds.M[0] <= fo.M_ <= fo.bounds.M[1] and fo.bounds.tau[0] <= fo.tau_ <= fo.bounds.tau[1]
         if not inside6:
             bad("fitted M / tau lie outside the configured bounds", dict(curve="analytic", M=M, tau=tau), dict(M=float(fo.M_), tau=float(fo.tau_)))
-        elif not ok6 and k6 and M < 3e-3:
+        elif not ok6 and k6 and (M < 3e-3 or M >= 1e10):
             k6_hits += 1
         elif not ok6:
             bad("fitting noise-free production generated from the same curve does not recover M and tau", dict(curve="analytic", M=M, tau=tau), dict(M=float(fo.M_), tau=float(fo.tau_)))
@@ -194,7 +200,7 @@ def run(ctx):
             fw.fit(tw, w6["M"] * np.asarray(rfw(tw / w6["tau"]), float))
         if not dom.relclose(fw.M_, w6["M"], 1e-2):
             ctx.known_printed.append(k6[0]["line"])
-            ctx.notes.append(f"known finding K6 reproduced on its witness (fitted M {fw.M_ / w6['M']:.3g} x, tau {fw.tau_ / w6['tau']:.3g} x the generating values); {k6_hits} sampled fits showed it")
+            ctx.notes.append(f"known finding K6 reproduced on its witness (fitted M {fw.M_ / w6['M']:.3g} x, tau {fw.tau_ / w6['tau']:.3g} x the generating values); {k6_hits + len(k6_band_hits)} sampled fits showed it")
     # ---------------- the lookup object the library itself hands to the forecaster (recovery_factor_interpolator; tie 1:
     # C05_interpolator.v): stored value at every stored time, 0 before the first, the last stored recovery after the last,
     # never outside the range of the stored recoveries - for both reservoirs and both recovery modes
@@ -259,6 +265,38 @@ def run(ctx):
                     continue
                 if not (b.M[0] <= fit_i.M_ <= b.M[1]) or (tg is None and not (b.tau[0] <= fit_i.tau_ <= b.tau[1])) or (tg is not None and fit_i.tau_ != tg):
                     bad("fitted M / tau lie outside the configured bounds (integer-typed data)", inp_i, dict(M=float(fit_i.M_), tau=float(fit_i.tau_)))
+    # ---------------- integer-typed columns with LARGE entries (cumulative production in scf as int32, above 2**30; times in seconds):
+    # the data are exact, the fit must recover M and tau (fixed 2026-10, d0e8b74: the initial guess 2 x last entry wrapped negative)
+    for k in range(3 if ctx.quick else 12):
+        rf = crv["analytic"]
+        M, tau = float(rng.uniform(1.2e9, 1.9e9)) / 0.6, float(rng.uniform(300, 3000))
+        tt_i = np.linspace(0, 1.6 * tau, 61)
+        cum_i = np.rint(M * np.asarray(rf(tt_i / tau), float))
+        if not (2 ** 30 < cum_i[-1] < 2 ** 31):
+            continue
+        for what_i, ta, ca in (("int32 cumulative production above 2**30", tt_i, cum_i.astype(np.int32)), ("int32 times above 4.3e8 (seconds)", None, None)):
+            if ta is None:
+                tau_s = float(rng.uniform(2e8, 4e8))
+                ta = np.linspace(0, 4.5e8, 61).astype(np.int32)
+                ca = 500.0 * np.asarray(rf(ta.astype(float) / tau_s), float)
+                M_t, tau_t = 500.0, tau_s
+            else:
+                M_t, tau_t = M, tau
+            fo = ForecasterOnePhase(rf)
+            ev += 1
+            try:
+                with warnings.catch_warnings():
+                    warnings.simplefilter("ignore")
+                    fo.fit(ta, ca)
+                if not (dom.relclose(fo.M_, M_t, 1e-3) and dom.relclose(fo.tau_, tau_t, 1e-3)):
+                    bad("fitting noise-free production generated from the same curve does not recover M and tau (" + what_i + ")", dict(curve="analytic", M=M_t, tau=tau_t, dtype=what_i), dict(M=float(fo.M_), tau=float(fo.tau_)))
+                with warnings.catch_warnings():
+                    warnings.simplefilter("ignore")
+                    fo.fit(ta, ca, tau=tau_t)
+                if not dom.relclose(fo.M_, M_t, 1e-3):
+                    bad("with tau supplied, M is not the bounded least-squares optimum (" + what_i + ")", dict(curve="analytic", M=M_t, tau=tau_t, dtype=what_i), dict(M=float(fo.M_)))
+            except Exception as e:  # noqa: BLE001
+                bad("fit raises on admissible data", dict(curve="analytic", M=M_t, tau=tau_t, dtype=what_i), repr(e)[:200])
     # ---------------- data whose unconstrained least-squares optimum lies OUTSIDE the bounds (net injection / noise around a small
     # negative offset): the fitted M must still be inside the configured bounds - the default bounds (0, inf) included - and with tau
     # supplied it is the clipped closed-form optimum
